@@ -154,3 +154,16 @@ def run(ctx):
             ctx.violation(R3, 'unbounded:' + g.path, 'the merge pipeline creates an unbounded channel: the producer can run arbitrarily far ahead and memory grows with the input', fn=g, at=t.get('span'))
         nb = sum(1 for g in b.fn_list if g.path.startswith(('merge::', '<merge::')) for _, t in g.calls() if (g.callee(t) or '').endswith('crossbeam_channel::bounded'))
         ctx.check(R3, not ub and nb >= 1, 'bounded-channels', 'unbounded channel in the merge pipeline (bounded ones found: %d)' % nb)
+        # the CLI builds FSTs straight into their output files: an in-memory builder (`::memory()`) holds the whole FST on the heap
+        R4 = ctx.rule('R13.4', 'fst-bin: every FST builder writes to a file as it goes (no in-memory builder)', floor=2)
+        for g in b.fn_list:
+            if g.from_expansion:
+                continue
+            for _, t in g.calls():
+                cal = g.callee(t) or ''
+                if not (cal.startswith('fst::') and 'Builder' in cal):
+                    continue
+                if cal.endswith('::memory'):
+                    ctx.violation(R4, 'memory-builder:' + g.path, '%s builds an FST in memory (%s) before writing it out: the heap holds the whole output, which grows with the input' % (g.path.rsplit('::', 1)[-1], cal.rsplit('::', 2)[-2]), fn=g, at=t.get('span'))
+                elif cal.endswith('::new'):
+                    ctx.ok(R4, 'file-builder:%s#%s' % (g.path, t.get('span')), None, g, t.get('span'))
